@@ -134,8 +134,7 @@ def stmt_failure(c):
             l = float(np.linalg.norm(v))
             if not (p['min_delta'] - 1e-9 <= l <= p['max_delta'] + 1e-9):
                 return 'match %d: |%s| = %.4f outside [%s, %s]' % (k, nm, l, p['min_delta'], p['max_delta'])
-        pa, pb = make_polar(np.array([m.a, m.b]))
-        dphi = abs(pa[1] - pb[1]) % np.pi
+        dphi = abs(math.atan2(m.a[0], m.a[1]) - math.atan2(m.b[0], m.b[1])) % np.pi       # angle of (y, x) vectors: atan2(y, x)
         if not (dphi > p['min_angle'] - 1e-9 and dphi < np.pi - p['min_angle'] + 1e-9):
             return 'match %d: lattice vectors separated by %.4f rad, less than min_angle' % (k, dphi)
         if not np.array_equal(m.indices, np.round(m.indices)):
